@@ -1,4 +1,5 @@
 import ObiVerif.Model.Demux
+import ObiVerif.Model.NgsFilter
 import ObiVerif.Driver.Util
 /-! line protocol for C12
 
@@ -14,8 +15,13 @@ demux <fmt> <style> <e> <indel> <K>
       cls <class> exp <n> n × [ 10 tokens ]    (generator's intent: ignored by the model)
       hits K × [ 4 × ( <n> n × [ <begin> <end> <mismatches> ] ) ]
 ```
+sheet c <style> <nrec> nrec × [ <nf> nf × <field> ]   ReadNGSFilter on the CSV records (fields in hex)
+sheet o <nlines> nlines × <line>                     ReadNGSFilter on the lines of an old-format sheet
+```
 byte strings in hex (`-` = empty).  Result: `sheet-error`, `panic`, `fatal` or
-`ok <n> ## <id>|<seq>|k=v;k=v… ## …` with the annotations sorted by key. -/
+`ok <n> ## <id>|<seq>|k=v;k=v… ## …` with the annotations sorted by key; for `sheet`:
+`ok <K> ## <fp> <rp> fsp rsp fdl rdl fin rin fmode rmode ferr rerr fpi rpi ftl rtl <ns> <ftag>:<rtag>=<sample>/<exp>[k=v,…] … ## …`
+(markers sorted by primers, samples by tags, annotation keys sorted, every text in hex). -/
 namespace ObiVerif.Driver.C12
 open ObiVerif.Demux ObiVerif.Driver
 
@@ -98,6 +104,60 @@ def pDemux : P String := do
   | none => pure "sheet-error"
   | some ms => pure (showResult (extractMultiBarcode ms id seq hits))
 
+/-! ## the sample sheet as read -/
+
+def insBy {α} (le : α → α → Bool) (x : α) : List α → List α
+  | [] => [x]
+  | y :: ys => if le x y then x :: y :: ys else y :: insBy le x ys
+
+def sortBy {α} (le : α → α → Bool) (l : List α) : List α := l.foldr (insBy le) []
+
+def hexS (s : String) : String := hex s.toUTF8.toList
+
+def showSample (s : Sample) : String :=
+  let an := sortBy (fun a b => decide (a ≤ b)) (s.annots.map (fun p => hexS p.1 ++ "=" ++ hexS p.2))
+  hex s.ftag ++ ":" ++ hex s.rtag ++ "=" ++ hexS s.name ++ "/" ++ hexS s.experiment ++
+    "[" ++ ",".intercalate an ++ "]"
+
+def b01 (b : Bool) : String := if b then "1" else "0"
+
+def showLMarker (m : NgsFilter.LMarker) : String :=
+  let (fl, rl) := match checkTagLength m.samples with | some p => p | none => (0, 0)
+  let smp := sortBy (fun a b => decide (a ≤ b)) (m.samples.map showSample)
+  joinSp ([hexS m.fp, hexS m.rp, toString m.fsp, toString m.rsp, toString m.fdl.toNat, toString m.rdl.toNat,
+    toString m.fin, toString m.rin, modeName m.fmode, modeName m.rmode, toString m.ferr, toString m.rerr,
+    b01 m.fpi, b01 m.rpi, toString fl, toString rl, toString m.samples.length] ++ smp)
+
+def showLib : NgsFilter.M NgsFilter.Lib → String
+  | .error .sheetError => "sheet-error"
+  | .error .fatal => "fatal"
+  | .error .panic => "panic"
+  | .ok lib =>
+    let ms := sortBy (fun a b => decide (a ≤ b)) (lib.map showLMarker)
+    "ok " ++ toString lib.length ++ (ms.foldl (fun acc x => acc ++ " ## " ++ x) "")
+
+def pText : P String := do let b ← pHex; pure (String.ofList (b.map (fun c => Char.ofNat c.toNat)))
+
+def pRecord : P (List String) := do let n ← pNat; rep pText n
+
+def pSheet : P String := do
+  let f ← tok
+  match f with
+  | "c" =>
+    let _ ← pNat
+    let n ← pNat
+    let recs ← rep pRecord n
+    let rest ← get
+    if !rest.isEmpty then failure
+    pure (showLib (NgsFilter.readSheetCsv recs))
+  | "o" =>
+    let n ← pNat
+    let lines ← rep pText n
+    let rest ← get
+    if !rest.isEmpty then failure
+    pure (showLib (NgsFilter.readSheetOld lines))
+  | _ => failure
+
 def run (line : String) : String :=
   match words line with
   | ["ham", a, b] =>
@@ -122,6 +182,10 @@ def run (line : String) : String :=
     | _, _, _, _, _ => "bad-op"
   | "demux" :: rest =>
     match pDemux.run rest with
+    | some (r, _) => r
+    | none => "bad-op"
+  | "sheet" :: rest =>
+    match pSheet.run rest with
     | some (r, _) => r
     | none => "bad-op"
   | _ => "bad-op"
